@@ -1,6 +1,8 @@
 SPECIFICATION MCSpec
 CONSTANTS
   Groups = {"g1", "g2"}
+  GroupOnFollower = FALSE
+  OnlyOpenEnded = FALSE
   CleanupById = FALSE
   Consumers = {"c1", "c2", "c3"}
   MaxEpoch = 3
@@ -8,5 +10,8 @@ CONSTANTS
   MaxOps = 12
   UsePlain = TRUE
   UseBurst = TRUE
+  UseFollower = TRUE
+  UseBounded = TRUE
+  C0 = "c1"
   UseBad = TRUE
 CHECK_DEADLOCK FALSE
